@@ -8,18 +8,24 @@ import ast_common
 import debugtree
 import gen_ast
 import vlib
+import st_corr
 from vlib import hexs
 
 NEED_BIN = False
 MANIFEST_ENTRY = {
-    "technique": "Coq obligation that the precedence! table regenerated from parser.rs is the IEC 61131-3 B.3.1 table (levels, operators, "
+    "technique": "Coq proof (mutual induction over spelled statement / expression trees, explicit fuel bounds) that a PEG-faithful model of the statement and expression grammar returns the denoted tree for every well-formed spelling; Coq obligation that the precedence! table regenerated from parser.rs is the IEC 61131-3 B.3.1 table (levels, operators, "
                  "left associativity); Coq proof that the precedence-climbing expression parser model returns the intended tree for "
                  "every well-formed spelling (any size, any trivia, any redundant parentheses); model/parser correspondence; "
                  "AST-generator search with expected trees over declarations, statements and the exhaustive operator-pair family",
     "text": "Proved (all sizes): the operator table the parser is built from is exactly the Annex B.3.1 table; the expression-parser model "
             "(peg precedence climbing over that table, unary operators, parentheses, trivia) returns erase(s) for every well-formed "
-            "spelled expression s. NOT proved: declarations, statements other than through the model correspondence, SFC and "
-            "configurations -- for those the property is decided by search: an AST-level generator knows what each unit means "
+            "spelled expression s; the statement-parser model (PEG transcription of B.3.2 and of function calls with positional / "
+            "named / output parameters, signed constants: assignment, function-block call, IF / ELSIF / ELSE, FOR [BY], WHILE, REPEAT, "
+            "EXIT, RETURN, nested to any depth) returns exactly the denoted statement list for every well-formed spelling, end to end "
+            "through the FUNCTION_BLOCK wrapper with the fuel the entry point supplies (never exhausted). The model is compared with "
+            "parse_program three ways (meaning / parser / model) on generated bodies and on token-level mutants (accept / reject and "
+            "tree). NOT proved: declarations, CASE, structured and array variables, typed / time / real literals, empty statements, "
+            "SFC and configurations -- for those the property is decided by search: an AST-level generator knows what each unit means "
             "(names, kinds, classes, qualifiers, types, initial values, nesting, association) and the parser's library must equal it, "
             "in the canonical and in random spellings.",
     "note": "Trusted: Coq kernel, translator (precedence! block), extraction + driver, tools/gen_ast.py (the oracle for what a unit "
@@ -137,7 +143,10 @@ def search(run, info):
                 run.cov["disagreements_checked"] += 1
                 run.violation("correspondence", "expression parser model and parse_program disagree on %r: model %s, parser %s" % (etext[:100], mtree, got),
                               {"input": {"text": ptext}}, no_input=True)
+    # ---- the statement / expression parser model (C01_statements_faithful, C01_function_block_body) ----
+    st_stats = st_corr.check(run, info, 250 if run.tier == "quick" else 4000, 500 if run.tier == "quick" else 8000, "c01")
     return {"coverage": {
+        "statement_model": st_stats,
         "rule": "units from the AST-level generator (TYPE blocks with enumeration / alias / subrange / array / simple / string / structure / "
                 "structure-initialization declarations; FUNCTION / FUNCTION_BLOCK / PROGRAM with every VAR class x qualifier x ten initialiser "
                 "kinds; all statement forms; expressions over all operators, unary operators, calls, structured and array variables, typed and "
